@@ -7,6 +7,7 @@ compares the element port and every field port with an independent flattener wor
 generator's own description. Collections containing a field the register's access mode cannot serve
 must be rejected at construction.
 """
+import collections
 import random
 
 from vmon import env  # noqa: F401
@@ -96,6 +97,17 @@ def gen_case(rng, tier, idx):
             tree = gen_node(rng, 4, allowed)
         if top_kind == "annot" and tree[0] != "dict":
             tree = ["dict", [["top", tree]]]
+    if mode == "bad" and rng.random() < 0.3:
+        # the only field the register cannot serve is a degenerate one (zero or one bit wide, deep in the collection)
+        def leaves_of(n):
+            return [n] if n[0] == "leaf" else [l for v in n[1] for l in leaves_of(v[1] if n[0] == "dict" else v)]
+        ls = leaves_of(tree)
+        for l in ls:
+            if l[1] not in compatible:
+                l[1] = rng.choice(compatible)
+        victim = rng.choice(ls)
+        victim[1] = rng.choice([a for a in names if a not in compatible])
+        victim[2] = ["u", rng.choice([0, 0, 1])]
     return {"access": access, "tree": tree, "top_kind": top_kind, "cycles": 120 if tier == "quick" else 300}
 
 
@@ -107,7 +119,24 @@ def shape_width(s):
     return 2 if s[0] == "e" else s[1]
 
 
-def to_fields(node):
+class DictSub(dict):
+    pass
+
+
+class ListSub(list):
+    pass
+
+
+def spell_container(rng, obj):
+    """The same mapping / sequence as the container class a user may hold it in (subclasses of dict and list)."""
+    if rng is None or rng.random() >= 0.15:
+        return obj
+    if isinstance(obj, dict):
+        return rng.choice([collections.OrderedDict, DictSub, lambda d: collections.defaultdict(None, d)])(obj)
+    return ListSub(obj)
+
+
+def to_fields(node, rng=None):
     if node[0] == "leaf":
         _l, act, shape = node
         acc, cls = ACTIONS[act]
@@ -115,8 +144,8 @@ def to_fields(node):
             return csr.Field(ProbeAction, mk_shape(shape), acc)
         return csr.Field(cls, mk_shape(shape))
     if node[0] == "dict":
-        return {k: to_fields(v) for k, v in node[1]}
-    return [to_fields(v) for v in node[1]]
+        return spell_container(rng, {k: to_fields(v, rng) for k, v in node[1]})
+    return spell_container(rng, [to_fields(v, rng) for v in node[1]])
 
 
 def flatten(node, path=()):
@@ -159,7 +188,7 @@ def run_case(case):
     leaves = flatten(tree)
     incompatible = [p for p, (_l, act, _s) in leaves
                     if any(ch not in access for ch in ACTIONS[act][0] if ch in "rw")]
-    fields = to_fields(tree)
+    fields = to_fields(tree, random.Random(case["stim_seed"] + ":containers"))
     if rng.random() < 0.3 and case["top_kind"] != "annot":
         try:        # the same description objects used for another register first (Field.create() must give fresh actions)
             from amaranth.hdl import Fragment
